@@ -102,7 +102,8 @@ class Oracles:
                       "paint_exact_checked": 0, "queries_checked": 0}
 
     def v(self, prop, what, line):
-        self.violations.append((prop, what, line))
+        # (property, what, operation line, index of the operation in the scenario: 0 = construction)
+        self.violations.append((prop, what, line, getattr(self, "step", 0)))
 
     # ---------------------------------------------------------------- static checks of one state
     def check_state(self, t, line, construct=False):
@@ -190,7 +191,7 @@ class Oracles:
                 if not mask:
                     continue
                 for k in E.RP_KEYS:
-                    if k in act:
+                    if k in act and k not in getattr(self, "unfresh", ()):
                         self.stats["rp_values_checked"] += 1
                         stored = g.nodes[n].get(k)
                         try:
@@ -199,7 +200,7 @@ class Oracles:
                             continue
                         if stored is None or not E.close(stored, ref):
                             self.v("C08", "%s: node %d %s stored %s but the current mask gives %s" % (tag, n, k, stored, ref), line)
-            if "iou" in act:
+            if "iou" in act and "iou" not in getattr(self, "unfresh", ()):
                 for u, w in g.edges:
                     A = seg[t.get_time(u)].reshape(-1) == u
                     B = seg[t.get_time(w)].reshape(-1) == w
@@ -264,11 +265,21 @@ class Oracles:
                 self.v("C10", "`%s`: updating the managed feature %s was not refused with ValueError (code %d)" % (line, key, code), line)
 
     def after(self, t, line, kind, code, before, obs):
+        self.step = getattr(self, "step", 0) + 1
         if self.timeline is None:
             self.start(t)
         if code == 15:
             self.v("C03", "`%s` does not terminate" % line, line)
             return
+        if kind == "enable" and code == 0:
+            toks_ = line.split()
+            names_ = [E.KEYNAME[int(x)] for x in toks_[1].split(",")]
+            if toks_[2] == "0":
+                self.unfresh = getattr(self, "unfresh", set()) | set(names_)
+            else:
+                self.unfresh = getattr(self, "unfresh", set()) - set(names_)
+        if kind == "disable" and code == 0:
+            self.unfresh = getattr(self, "unfresh", set()) - {E.KEYNAME[int(x)] for x in line.split()[1].split(",")}
         self.check_toggle(t, line, kind, code, before)
         if kind in ("enable", "disable"):
             # snapshots taken under different registries are not comparable: the timeline oracle
